@@ -9,7 +9,7 @@ def closuresK : Closures :=
   { valid := fun p => if p == 2 then some 201 else none,
     present := fun p => s!"<P{p}>".toList,
     marshal := fun p => if p == 2 then some 203 else none,
-    unmarshal := fun p => ([strV ['U'], .leaf (.int p)], none) }
+    unmarshal := umfResult }
 
 def eqHook : EqHook := fun p _ _ => if p == 2 then some .badInput else none
 
